@@ -73,6 +73,7 @@ void World::exec(const Step &s)
     cur_drop = 0;
     cur_dropk = 0;
     if (hit_index) stats.fired["ct_hits_seen"] += long(hit_index);
+    hits_per_step.push_back(hit_index);
     {
         std::ostringstream o;
         static const char* ocn[] = { "ok", "skip", "declined", "error", "no-oracle", "abandon" };
